@@ -122,4 +122,37 @@ def register(R, P):
         ],
         raises={"*": ["IOV:: IOV(self)", "UNCHANGED:: unchanged(self._valid_to_refs) and unchanged(self._manager.specs)"]},
         modifies=MOD, alloc=True)
-    P["_refmgr"] = ["ReferenceManager.new_ref", "ReferenceManager.del_ref", "ReferenceManager.change_ref"]
+    R.classes["ReferenceImpl"].fields.update({"ghost_defined": "bool"})
+    R.contract("extern::ReferenceImpl.is_defined", trusted=True, pure=True, params={"self": "ReferenceImpl"}, returns="bool",
+               ensures=["result == self.ghost_defined"])
+    R.contracts["ReferenceImpl.is_defined"] = R.contracts.pop("ReferenceImpl.is_defined")
+    V = "self._valid_to_refs"
+    MINE = "any(nm in space.own_refs and space.own_refs[nm] is %s for nm in every('str'))"
+    INJ = "all(implies(a in space.own_refs and b in space.own_refs and space.own_refs[a] is space.own_refs[b], a == b) for a in every('str') for b in every('str'))"
+    NONNULL = "all(implies(nm in space.own_refs, space.own_refs[nm] is not null) for nm in every('str'))"
+    R.contract(M + "::ReferenceManager.new_space_refs",
+        params={"self": "ReferenceManager", "space": "RefHolder"},
+        requires=["IOV(self)", INJ, NONNULL, "space.own_refs is not self._valid_to_refs",
+                  # the space is new: none of its references is listed yet
+                  "all(implies(i in %s and 0 <= a and a < len(%s[i]), not (%s)) for i in every('int') for a in every('int'))" % (V, V, MINE % ("%s[i][a]" % V))],
+        ensures=[
+            "IOV:: IOV(self)",
+            # C18: every DEFINED non-interface reference given to the new space is listed under its value ...
+            "LISTED:: all(implies(nm in space.own_refs and space.own_refs[nm].ghost_defined and not is_instance_named(space.own_refs[nm].interface, 'Interface'),"
+            " id_of(space.own_refs[nm].interface) in %s and any(%s[id_of(space.own_refs[nm].interface)][p] is space.own_refs[nm] for p in range(len(%s[id_of(space.own_refs[nm].interface)])))) for nm in every('str'))" % (V, V, V),
+            # ... and no DERIVED one is (a derived reference is discarded by re-derivation, never through del_ref: listing it
+            # would keep the entry, hence the spec, alive for ever)
+            "ONLY-DEFINED:: all(implies(i in %s and 0 <= a and a < len(%s[i]) and (%s), %s[i][a].ghost_defined) for i in every('int') for a in every('int'))" % (V, V, MINE % ("%s[i][a]" % V), V),
+            "OLD-KEPT:: all(implies(old(i in %s) and 0 <= a and a < old(len(%s[i])), i in %s and a < len(%s[i]) and %s[i][a] is old(%s[i][a])) for i in every('int') for a in every('int'))" % (V, V, V, V, V, V),
+            "SPECS:: unchanged(self._manager.specs)",
+        ],
+        loops={0: {"inv": [
+            "IOV(self)",
+            "all(implies(nm in _done and space.own_refs[nm].ghost_defined and not is_instance_named(space.own_refs[nm].interface, 'Interface'),"
+            " id_of(space.own_refs[nm].interface) in %s and any(%s[id_of(space.own_refs[nm].interface)][p] is space.own_refs[nm] for p in range(len(%s[id_of(space.own_refs[nm].interface)])))) for nm in every('str'))" % (V, V, V),
+            "all(implies(i in %s and 0 <= a and a < len(%s[i]) and nm in space.own_refs and space.own_refs[nm] is %s[i][a], %s[i][a].ghost_defined and nm in _done) for i in every('int') for a in every('int') for nm in every('str'))" % (V, V, V, V),
+            "all(implies(old(i in %s) and 0 <= a and a < old(len(%s[i])), i in %s and a < len(%s[i]) and %s[i][a] is old(%s[i][a])) for i in every('int') for a in every('int'))" % (V, V, V, V, V, V),
+            "unchanged(space.own_refs)",
+        ], "modifies": ["content(%s)" % V, "every_content('list[ReferenceImpl]')"]}},
+        modifies=["content(%s)" % V, "every_content('list[ReferenceImpl]')"], alloc=True)
+    P["_refmgr"] = ["ReferenceManager.new_ref", "ReferenceManager.del_ref", "ReferenceManager.change_ref", "ReferenceManager.new_space_refs"]
